@@ -74,3 +74,11 @@ package samlidp
 //@ contract (*Server).HandleLogin
 //@ requires[cfg] s: serverConfigured(s)
 //@ requires[cfg] r: r != nil && r.URL != nil && w != nil
+
+//@ contract randomBytes
+//@ trusted
+//@ ensures[C19] length: len(result) == n
+
+//@ contract getSPMetadata
+//@ requires[cfg] r: r != nil
+//@ ensures[C09,C19] nil_iff_err: (spMetadata == nil) == (err != nil)
